@@ -42,7 +42,7 @@ type histExec struct {
 }
 
 func (histExec) BeginBlock(*types.Block, events.Fireable, *types.PartSetHeader) error { return nil }
-func (histExec) ExecBlock(*types.Block, events.Fireable, *types.ExecuteResult) error   { return nil }
+func (histExec) ExecBlock(*types.Block, events.Fireable, *types.ExecuteResult) error  { return nil }
 
 func (x histExec) EndBlock(b *types.Block, _ events.Fireable, _ *types.PartSetHeader, _ []*types.ValidatorAttr, next *types.ValidatorSet) error {
 	if !x.h.active() || b.Height != x.h.at {
